@@ -655,7 +655,7 @@ class UGen(SynthObject, aob.AbstractObject):
             selector = trg.Clip._method_selector_for_rate(self.rate)
             return getattr(trg.Clip, selector)(self, lo, hi)
 
-    def fold(self, lo=0.0, hi=0.0):
+    def fold(self, lo=0.0, hi=1.0):
         if self.rate == 'demand':
             raise NotImplementedError('fold is not implemented for dr ugens')
         else:
